@@ -888,6 +888,12 @@ def directed(ctx):
     for cls in util.CLASS_NAMES:
         for via, off, ln in (('filename', None, 8388608 + 13), ('handle', 0, 8388608 + 16), ('filename', 8, 8388608 + 5), ('bytes', 3, 8388608 + 1)):
             cases.append({'kind': 'read', 'cls': cls, 'via': via, 'srcgen': [len(cases), 1048576 + 4096], 'offset': off, 'length': ln})
+    # files of exactly one and two memory pages: windows that start at, just before and exactly at the end of the last page
+    for cls in util.CLASS_NAMES:
+        for size in (4096, 8192):
+            for via in ('filename', 'handle'):
+                for off, ln in ((8 * size, None), (8 * size, 0), (8 * size - 8, None), (8 * size - 3, 3), (8 * size - 4096 * 8, None), (8 * size - 4096 * 8 + 5, 11)):
+                    cases.append({'kind': 'read', 'cls': cls, 'via': via, 'srcgen': [size + len(cases), size], 'offset': off, 'length': ln})
     # the empty bitstring written by tofile is an empty file: the empty window over it is a valid window
     for via in ('filename', 'handle'):
         for off, ln in [(None, None), (0, 0), (None, 0)]:
